@@ -626,6 +626,7 @@ func main() {
 		"Defaults.lean":     genDefaults(p, db),
 		"PolicySites.lean":  genPolicySites(p),
 		"SyncSkeleton.lean": genSyncSkeleton(p),
+		"WriterSkeleton.lean": genWriterSkeleton(p),
 		"SharedAccess.lean": genSharedAccess(p, db),
 	}
 	names := []string{}
